@@ -57,8 +57,10 @@ def outputs(value: term.Term, nout: int):
 class Fn(flow.Actor):
     """Stateless symbolic actor."""
 
+    ROLE = ''
+
     def __init__(self, name: str, nin: int = 1, nout: int = 1, **hp):
-        self.name = name
+        self.name = self.ROLE + name
         self.nin = nin
         self.nout = nout
         self.hp = dict(hp)
@@ -77,8 +79,10 @@ class Fn(flow.Actor):
 class St(flow.Actor):
     """Stateful symbolic actor."""
 
+    ROLE = ''
+
     def __init__(self, name: str, nin: int = 1, nout: int = 1, **hp):
-        self.name = name
+        self.name = self.ROLE + name
         self.nin = nin
         self.nout = nout
         self.hp = dict(hp)
